@@ -47,7 +47,7 @@ def declared_hits(pid, trace):
     out = []
     for i, rec in enumerate(trace):
         for field, what in rec.get('decl_mismatch', ()):
-            if mprobe.FIELD_OWNER.get(field) == pid:
+            if pid in mprobe.FIELD_OWNER.get(field, ()):
                 out.append(('declared-%s-not-what-the-scheduler-holds' % field.replace('_', '-'),
                             'at op %d: %s' % (i, what)))
     return out
